@@ -241,6 +241,23 @@ func GenPlan(t *rapid.T, profile string, k Knobs) *Plan {
 			p.Instances[i].Rules = append(p.Instances[i].Rules, OpRule{Kind: kind, N: nth, Trigger: tr})
 		}
 	}
+	if k.StopPhases || k.Stops {
+		// stops (and restarts) at the library's own log lines, i.e. between any two of its steps
+		nl := rapid.SampledFrom([]int{0, 0, 1, 1, 2}).Draw(t, "log_stops")
+		for j := 0; j < nl; j++ {
+			i := rapid.IntRange(0, n-1).Draw(t, "ls_inst")
+			lr := LogRule{Inst: i, Msg: rapid.SampledFrom(LogMessages).Draw(t, "ls_msg"), N: rapid.IntRange(0, 3).Draw(t, "ls_n")}
+			if rapid.IntRange(0, 4).Draw(t, "ls_start") == 0 {
+				lr.Action = Action{Kind: ActStart, Inst: i}
+			} else {
+				lr.Action = GenStopAction(t, 0, i, h)
+			}
+			p.LogRules = append(p.LogRules, lr)
+		}
+	}
+	if rapid.IntRange(0, 2).Draw(t, "yields_on") == 0 {
+		p.Yields = rapid.SliceOfN(rapid.SampledFrom([]uint8{0, 0, 1, 1, 2, 3}), 1, 8).Draw(t, "yields")
+	}
 	if k.Faults {
 		nf := rapid.IntRange(0, 4).Draw(t, "nfaults")
 		for j := 0; j < nf; j++ {
